@@ -119,4 +119,48 @@ func main() {
 	}
 	a, c := sem.Fib(95) // wraps
 	eq("gen_Fib (95)%Z", fmt.Sprintf("(%s, %s)", z(int64(a)), z(int64(c))))
+	// ---- loops with fuel
+	opt := func(s string) string { return "Some (" + s + ")" }
+	for _, x := range []float64{0.75, 3, 10, 12.5} {
+		n++
+		fmt.Printf("Example t%d : match gen_WhileDouble 100 %s with Some r => Qeq_bool r %s | None => false end = true. Proof. vm_compute. reflexivity. Qed.\n", n, q(x), q(sem.WhileDouble(x)))
+	}
+	eq("gen_WhileDouble 3 "+q(0.75), "None")
+	eq("gen_WhileDouble 4 "+q(0.75), "None")
+	n++
+	fmt.Printf("Example t%d : match gen_WhileDouble 5 %s with Some r => Qeq_bool r %s | None => false end = true. Proof. vm_compute. reflexivity. Qed.\n", n, q(0.75), q(sem.WhileDouble(0.75)))
+	for _, k := range []int{1, 2, 6, 7, 27, 97} {
+		eq("gen_Collatz 200 "+z(int64(k)), opt(z(int64(sem.Collatz(k)))))
+		eq("gen_UseCollatz 200 "+z(int64(k)), opt(z(int64(sem.UseCollatz(k)))))
+	}
+	eq("gen_Collatz 111 (27)%Z", "None")
+	eq("gen_Collatz 112 (27)%Z", opt(z(int64(sem.Collatz(27)))))
+	eq("gen_UseCollatz 50 (27)%Z", "None")
+	for _, k := range []int{0, 1, 5, 10, 11} {
+		eq("gen_SkipSum 100 "+z(int64(k)), opt(z(int64(sem.SkipSum(k)))))
+	}
+	for _, p := range [][2]int{{2, 100}, {3, 1}, {10, 0}, {0, 5}, {1 << 31, 1 << 62}} {
+		a, c := sem.FirstPow(p[0], p[1])
+		eq(fmt.Sprintf("gen_FirstPow 100 %s %s", z(int64(p[0])), z(int64(p[1]))), opt(fmt.Sprintf("%s, %s", z(int64(a)), b(c))))
+	}
+	eq("gen_FirstPow 3 (2)%Z (100)%Z", "None")
+	for _, l := range [][]int{{}, {1}, {6, 7, 3}, {6, 27, 3}, {97, 1}} {
+		eq("gen_SumCollatz 200 "+zl(l), opt(z(int64(sem.SumCollatz(l)))))
+	}
+	eq("gen_SumCollatz 10 "+zl([]int{6, 7, 3}), "None")
+	for _, p := range [][2]int{{0, 5}, {4, 6}, {12, 18}, {7, 0}} {
+		eq(fmt.Sprintf("gen_Gcds 50 %s %s", z(int64(p[0])), z(int64(p[1]))), opt(z(int64(sem.Gcds(p[0], p[1])))))
+	}
+	eq("gen_Gcds 3 (12)%Z (18)%Z", "None")
+	// ---- devirtualised interface argument, interface{} result, decimal literal
+	for _, p := range [][2]int{{2, 0}, {2, 4}, {-3, 5}} {
+		eq(fmt.Sprintf("gen_UseApply %s %s", z(int64(p[0])), z(int64(p[1]))), z(int64(sem.UseApply(p[0], p[1]))))
+	}
+	eq("gen_Apply (fun i => (7 * i)%Z) (4)%Z", "(42)%Z")
+	for _, x := range []float64{1.5, -2, 0} {
+		qeq("gen_UseAny "+q(x), q(sem.UseAny(x)))
+	}
+	for _, x := range []float64{10, 20, 0, -50} {
+		qeq("gen_Tenth "+q(x), q(sem.Tenth(x)))
+	}
 }
